@@ -1,5 +1,6 @@
 SPECIFICATION Spec
 CONSTANTS
+  AsWritten = FALSE
   MaxCells = 4
   MaxTimeCells = 3
   Emit = FALSE
